@@ -317,6 +317,15 @@ func cmdCheck(args []string) int {
 
 	if p.Instances != nil {
 		insts := p.Instances(tier)
+		if only := os.Getenv("VERIF_ONLY"); only != "" { // development aid: run the instances of one scenario only
+			var f []Instance
+			for _, in := range insts {
+				if in.Scenario == only {
+					f = append(f, in)
+				}
+			}
+			insts = f
+		}
 		defSeconds := 90
 		if tier == "thorough" {
 			defSeconds = 900
@@ -405,7 +414,7 @@ func cmdCheck(args []string) int {
 	}
 
 	var pure *PureResult
-	if p.Pure != nil {
+	if p.Pure != nil && os.Getenv("VERIF_ONLY") == "" {
 		pure = p.Pure(tier)
 		if !pure.Exhaustive {
 			total.Exhaustive = false
@@ -437,6 +446,13 @@ func cmdCheck(args []string) int {
 			for _, m := range v.v.Messages {
 				fmt.Printf("  %s\n", m)
 			}
+		}
+	}
+	// every listed finding of this property is reported, also when this tier / run did not reach it
+	for _, k := range known {
+		if k.Property == id && k.Status == "known" && !seenKnown[k.What] {
+			seenKnown[k.What] = true
+			fmt.Printf("KNOWN-FINDING: property=%s %s [listed; not reproduced by this run]\n", id, k.What)
 		}
 	}
 
